@@ -32,6 +32,9 @@ def scenario_for(case, abandon_at=None, mech=None):
     if case.get("ping_timeout"):
         copts["ping_timeout"] = 1.5
     att = {}
+    if case.get("send_fault"):
+        # one write after the request fails (the application's own send, an automatic pong or ping, a Close)
+        att["faults"] = {"send": {str(case["send_fault"][0]): case["send_fault"][1]}}
     if case.get("tls"):
         url = "wss://example.test/"
     else:
@@ -44,7 +47,7 @@ class C13(Prop):
     id = "C13"
     level = "fault_enumeration"
     rule = ("for each generated base scenario (messages, pings, idle periods giving top-of-loop Polls, ping timeout giving "
-            "Unresponsive, closing handshakes, plain or TLS-wrapped socket) the fault-free run is recorded, then the consumer "
+            "Unresponsive, closing handshakes, plain or TLS-wrapped socket, optionally one failing write) the unabandoned run is recorded, then the consumer "
             "abandons the loop at EVERY event index by each of four mechanisms (break = generator dropped, handler raises, "
             "gen.close(), exception leaving a with-block); all harness references to the generator are dropped and the socket and "
             "(if created) the selector must be released while the WebSocket object is still alive. Non-trivial = abandonment after "
@@ -70,6 +73,9 @@ class C13(Prop):
             "server_close": gen.weighted([(3, st.just(False)), (1, st.just(True))]),
             "end": st.sampled_from(["eof", "reset"]),
             "seg": st.sampled_from(["whole", ["uniform", 9]]),
+            # the k-th sendall after the handshake request fails: the loop is then abandoned after a failed write too
+            "send_fault": st.one_of(st.none(), st.none(), st.tuples(st.integers(1, 4), st.sampled_from(
+                ["timeout", "oserror", "exc", "reset"])).map(list)),
         })
 
     def run_case(self, case):
